@@ -133,6 +133,7 @@ static void check_state(int deep) {
     if (MAXLIVE < cap ? used != live : (used > live || used > cap))
       afail("header-count", "header pool reports %d slots in use, the shadow holds %d live matrices (max simultaneously live so far %d, pool capacity %d)", used, live, MAXLIVE, cap);
     hx_tag("hdrblocks=%d", blocks > 16 ? 17 : blocks);
+    if (live > cap) hx_tag("header-spill");
 #endif
   }
 #endif
@@ -255,12 +256,17 @@ int mon_alloc(const mon_args_t *a) {
     m4ri_init();
     CODEBOOK_BLOCKS = aw_live_blocks() - b0;
   }
-  static const char *HN[] = {"evict17", "samesize-reuse", "threshold", "headers>64", "headers>1024", "unlink-middle", "zero-area", "random-few-sizes", "random"};
+  static const char *HN[] = {"evict17", "samesize-reuse", "threshold", "headers>64", "headers>1024", "unlink-middle", "zero-area", "random-few-sizes", "random", "bounded-exhaustive"};
   for (long idx = a->from; idx < a->to; idx++) {
     rng_t r;
     mon_case_rng(&r, a, "alloc", idx);
     int kind = (int)(idx % 9);
     if (kind == 4 && (idx / 9) % 4 != 0) kind = 8; /* the 1024-header history is expensive: every 4th round */
+    int exh_depth = 0;
+    if (a->arg && !strncmp(a->arg, "exh:", 4)) {
+      kind = 9;
+      exh_depth = atoi(a->arg + 4);
+    }
     hx_reset(idx);
     NO = 0;
     NFREED = 0;
@@ -268,7 +274,15 @@ int mon_alloc(const mon_args_t *a) {
     snprintf(KEYP, sizeof KEYP, "alloc|%s|-", HN[kind]);
     long live0 = aw_live_blocks();
     AW_poison = 3; /* fresh blocks from the system allocator are not zero: mzd_init has to clear them itself */
-    hx_begin(idx, KEYP, "history=%s", HN[kind]);
+    char exhseq[40] = "";
+    if (kind == 9) {
+      long code = idx / 4;
+      int d;
+      for (d = 0; d < exh_depth && d < 38; d++, code /= 8) exhseq[d] = (char)('0' + code % 8);
+      exhseq[d] = 0;
+      hx_begin(idx, KEYP, "history=%s prefill-state=%ld ops=%s (0-2 init 1-3x64, 3 init above threshold, 4 free oldest, 5 free newest, 6 window, 7 cache cleanup)", HN[kind], idx % 4, exhseq);
+    } else
+      hx_begin(idx, KEYP, "history=%s", HN[kind]);
     int steps = 0, every = a->tier ? 1 : 16;
     size_t thr = (size_t)__M4RI_CPU_L3_CACHE;
     switch (kind) {
@@ -353,6 +367,69 @@ int mon_alloc(const mon_args_t *a) {
       check_state(1);
       break;
     }
+    case 9: {
+      /* bounded-exhaustive: the case index is the code of one operation sequence (base 8, exh_depth digits) started from one of
+       * three prepared states; all 3 * 8^depth sequences are enumerated by the orchestrator.  Meant for the build whose cache
+       * capacities are overridden to 2 (hook), where eviction, above-threshold bypass, header-block creation / unlinking and
+       * the spill to plain malloc are all within reach of 5-7 operations. */
+      int cap = mzd_verif_header_cache_capacity();
+      int pre = (int)(idx % 4);
+      long code = idx / 4;
+      /* prepared states: 0 empty | 1 just below the second header block | 2 just below the pool's capacity (next headers spill to
+       * plain malloc) | 3 three header blocks of which the first two hold a single live header each: "free oldest" twice empties the
+       * static block and then the middle block while the third is still linked behind it */
+      int nprefill = pre == 0 ? 0 : pre == 1 ? 62 : pre == 2 ? (cap ? cap - 2 : 190) : 130;
+      for (int i = 0; i < nprefill; i++) do_init(&r, 1, 1 + i % 60);
+      if (pre == 3) {
+        for (int k = 0; k < 128; k++)
+          if (k != 63 && k != 64) do_free(k);
+        m4ri_mmc_cleanup();
+      }
+      check_state(1);
+      char seq[40];
+      int sl = 0;
+      int big_rows = (int)(thr / 128) + 9; /* x 1024 columns: above the caching threshold */
+      for (int d = 0; d < exh_depth; d++) {
+        int op = (int)(code % 8);
+        code /= 8;
+        seq[sl++] = (char)('0' + op);
+        switch (op) {
+        case 0: do_init(&r, 1, 64); break;
+        case 1: do_init(&r, 2, 64); break;
+        case 2: do_init(&r, 3, 64); break;
+        case 3:
+          if (big_rows <= 4000) do_init(&r, big_rows, 1024);
+          break;
+        case 4: /* free the oldest live object that can be freed */
+          for (int k = 0; k < NO; k++)
+            if (O[k].live && !O[k].nchild) {
+              do_free(k);
+              break;
+            }
+          break;
+        case 5: /* free the newest */
+          for (int k = NO - 1; k >= 0; k--)
+            if (O[k].live && !O[k].nchild) {
+              do_free(k);
+              break;
+            }
+          break;
+        case 6: /* a window into the newest live matrix that owns storage */
+          for (int k = NO - 1; k >= 0; k--)
+            if (O[k].live && O[k].parent < 0 && O[k].rows && O[k].cols) {
+              do_window(&r, k);
+              break;
+            }
+          break;
+        case 7: m4ri_mmc_cleanup(); break;
+        }
+        check_state(1);
+      }
+      seq[sl] = 0;
+      hx_tag("prefill=%d", nprefill);
+      steps = exh_depth;
+      break;
+    }
     default: { /* random histories: few distinct sizes, many operations */
       int nsz = kind == 7 ? rng_int(&r, 2, 5) : rng_int(&r, 6, 30);
       int szr[30], szc[30];
@@ -408,7 +485,10 @@ int mon_alloc(const mon_args_t *a) {
 #endif
     AW_poison = 0;
     m4ri_init();
-    hx_cls("%s:%d", HN[kind], steps > 2000 ? 9 : steps / 250);
+    if (kind == 9)
+      hx_cls("%s:%ld:%s", HN[kind], idx % 4, exhseq);
+    else
+      hx_cls("%s:%d", HN[kind], steps > 2000 ? 9 : steps / 250);
     hx_tag("%s", HN[kind]);
     HX.nontrivial = 1;
     hx_end();
